@@ -52,7 +52,7 @@ def known_class(prop, sc, obs):
 def run(prop, tier, replay=None):
     t0 = time.time()
     work = workdir(f"{prop}-{tier}")
-    build_s = build(need_scrut_bin=True)
+    build_s = build(need_scrut_bin=True, allow_broken_harness=True)      # (this check drives only the scrut binary)
     V = Verdicts(prop)
     s = seed()
     cov = {}
